@@ -5,7 +5,7 @@
    Vocabulary: spec/CacheSpec.v ([Declared], [Inv], [Coh], [sublist]).
    The rejection script [rej] lists the (write-access) indices of device writes that fail
    transiently, histories add more with OpReject; accesses outside the image fail always. *)
-From Cam Require Import Outcome Bytes Mem BitField RegCodec Cache CacheSpec P_C04.
+From Cam Require Import Outcome Bytes Mem BitField RegCodec Cache CacheSpec P_C01 P_C04.
 
 (* the invariant holds initially, every operation preserves it (also operations the device
    rejects), and it implies that every cache entry equals device memory at its key *)
@@ -63,6 +63,16 @@ Theorem C04_own_write_visible : forall y n r buf s s1,
   fst (m_cached_bytes true n r s1) = Ok buf.
 Proof. exact own_write_visible. Qed.
 Print Assumptions C04_own_write_visible.
+
+(* at the level of operations, for IntReg in every caching mode: set_value x; value returns the decoding
+   of the image of x - hence x itself for every x the register can hold (C01's round trip) *)
+Theorem C04_own_write_visible_intreg : forall y n r x s,
+  Inv y s -> node_at y n = Some (NReg r) -> g_kind r = 0 ->
+  supported_int_len (g_len r) = true -> int_in_range (g_len r) (g_sign r) x ->
+  fst (step true cur y (OpSet n [x]) s) = sh_unit (Ok tt) ->
+  fst (step true cur y (OpValue n) (snd (step true cur y (OpSet n [x]) s))) = sh_z (Ok x).
+Proof. exact own_write_intreg_value. Qed.
+Print Assumptions C04_own_write_visible_intreg.
 
 (* the hypotheses are satisfiable by a selector-addressed bank with an aliasing register, and
    caching then really saves accesses *)
